@@ -555,9 +555,9 @@ func (s *structVM) newChildField(parent *fieldVM, child *fieldVM, toBind bool) *
 				newField := reflect.NewAt(parent.structField.Type, parent.getPtr(ptr))
 				for i := 0; i < parent.ptrDeep; i++ {
 					newField = newField.Elem()
-				}
-				if newField.IsNil() {
-					return nil
+					if newField.IsNil() {
+						return nil
+					}
 				}
 				return child.valueGetter(unsafe.Pointer(newField.Pointer()))
 			}
